@@ -339,6 +339,12 @@ class Program(object):
             syms = tu['syms']
             for s in syms:
                 s.setdefault('_tu', tu)
+                # a lambda inside a function template: the extractor names it by source position only, so the closures of all
+                # instantiations would share one id (and one body, with the local declarations of whichever came first)
+                if s.get('kind') == 'lambda' and '::(anonymous class)::' in s.get('q', '') and ' in ' not in s['id']:
+                    encl = s['q'].split('::(anonymous class)::')[0]
+                    if '<' in encl:
+                        s['id'] = s['id'] + ' in ' + encl
                 if s['id'] not in self.syms:
                     self.syms[s['id']] = s
             for raw in tu['functions']:
